@@ -86,6 +86,11 @@ def near_misses(rng, d):
         ds2 = ds.copy()
         ds2.attrs['Conventions'] = 'CF-1.6, UGRID-1.0'
         out.append(('Conventions lists UGRID second', ds2))
+        # CF allows a comma separated list (with or without blanks) as well as a blank separated one; some writers use other marks
+        for text in ('CF-1.6,UGRID-1.0', 'CF-1.6/UGRID-1.0', 'CF-1.6 UGRID-1.0', 'UGRID-1.0;CF-1.6', 'CF-1.6+UGRID-1.0'):
+            ds2 = ds.copy()
+            ds2.attrs['Conventions'] = text
+            out.append((f'Conventions = {text}', ds2))
         out.append(('no topology_dimension', drop_attr(ds, 'Mesh2', 'topology_dimension')))
         ds2 = ds.copy()
         ds2['Mesh2'].attrs = dict(ds2['Mesh2'].attrs, topology_dimension=numpy.int32(1))
